@@ -734,7 +734,14 @@ func parseParams(s string) ([]Param, error) {
 		}
 
 		if r == '(' {
-			part := getBracketedString(s, '(', ')')
+			part, ok := getBracketedString(s, '(', ')')
+			if !ok {
+				// TODO: Add position to this error.
+				return nil, &Error{
+					Type: ErrInvalidUnionType,
+					Hint: s,
+				}
+			}
 			var types ParamType
 			for _, c := range part {
 				typ, ok := parseParamType(c)
@@ -782,7 +789,13 @@ func parseParams(s string) ([]Param, error) {
 					Hint: params[n].Type.String(),
 				}
 			}
-			part := getBracketedString(s, '<', '>')
+			part, ok := getBracketedString(s, '<', '>')
+			if !ok {
+				// TODO: Add position to this error.
+				return nil, &Error{
+					Type: ErrUnmatchedSubtype,
+				}
+			}
 			sub, err := parseParams(part)
 			if err != nil {
 				return nil, err
@@ -802,7 +815,10 @@ func parseParams(s string) ([]Param, error) {
 	return params, nil
 }
 
-func getBracketedString(s string, open, close rune) string {
+// getBracketedString returns the text between the opening bracket
+// at the start of s and its matching closing bracket. The second
+// return value is false if the brackets are not balanced.
+func getBracketedString(s string, open, close rune) (string, bool) {
 
 	var depth int
 
@@ -820,12 +836,12 @@ func getBracketedString(s string, open, close rune) string {
 		if c == close {
 			depth--
 			if depth == 0 {
-				return s[utf8.RuneLen(open):pos]
+				return s[utf8.RuneLen(open):pos], true
 			}
 		}
 	}
 
-	return ""
+	return "", false
 }
 
 // A LambdaNode represents a user-defined JSONata function.
